@@ -249,6 +249,14 @@ class _Return(Exception):
         self.value = value
 
 
+class _Break(Exception):
+    pass
+
+
+class _Continue(Exception):
+    pass
+
+
 class Folder:
     """Evaluate expressions / function bodies of the folding language.
 
@@ -448,8 +456,23 @@ class Folder:
             left = right
         return True
 
+    def _sym_index(self, sl, env):
+        """Text of an index expression with its foldable parts folded (symbolic mode)."""
+        if isinstance(sl, ast.Tuple):
+            return ", ".join(self._sym_index(e, env) for e in sl.elts)
+        if isinstance(sl, ast.Slice):
+            parts = [self._sym_index(x, env) if x is not None else "" for x in (sl.lower, sl.upper)]
+            return ":".join(parts) + (":" + self._sym_index(sl.step, env) if sl.step is not None else "")
+        try:
+            return repr(self.ev(sl, env))
+        except Refuse:
+            return " ".join(ast.unparse(sl).split())
+
     def e_Subscript(self, n, env):
         v = self.ev(n.value, env)
+        if self.symbolic and isinstance(v, (Opaque, Sym)):
+            label = v.label if isinstance(v, Opaque) else repr(v)
+            return Sym(f"{label}[{self._sym_index(n.slice, env)}]")
         if isinstance(n.slice, ast.Slice):
             lo = self.ev(n.slice.lower, env) if n.slice.lower else None
             hi = self.ev(n.slice.upper, env) if n.slice.upper else None
@@ -480,6 +503,8 @@ class Folder:
         raise Refuse("subscript of unknown")
 
     def e_Attribute(self, n, env):
+        if self.symbolic and isinstance(n.value, ast.Name) and n.value.id in ("np", "numpy", "math") and n.value.id not in env:
+            return Opaque("callable", f"{n.value.id}.{n.attr}")
         v = self.ev(n.value, env) if not (isinstance(n.value, ast.Name) and n.value.id in ("np", "numpy", "math")) else None
         if isinstance(v, Arr) and n.attr == "shape":
             return v.shape
@@ -548,7 +573,7 @@ class Folder:
                 kw = {k.arg: self.ev(k.value, env) for k in n.keywords if k.arg}
                 return self.call(tgt, args, kw)
         cf = self._ctx_func()
-        if cf is not None and not self.symbolic:
+        if cf is not None:
             from . import flow
 
             try:
@@ -556,11 +581,21 @@ class Folder:
             except Exception:
                 t = None
             if t is not None and hasattr(t, "node") and isinstance(t.node, ast.FunctionDef) and not t.node.decorator_list:
-                args = [self.ev(a, env) for a in n.args]
-                kw = {k.arg: self.ev(k.value, env) for k in n.keywords if k.arg}
-                if isinstance(f, ast.Attribute) and getattr(t, "cls", None) is not None and t.params and t.params[0] in ("self", "cls"):
-                    args = [self.ev(f.value, env)] + args
-                return self.call(t.node, args, kw)
+                if not self.symbolic:
+                    args = [self.ev(a, env) for a in n.args]
+                    kw = {k.arg: self.ev(k.value, env) for k in n.keywords if k.arg}
+                    if isinstance(f, ast.Attribute) and getattr(t, "cls", None) is not None and t.params and t.params[0] in ("self", "cls"):
+                        args = [self.ev(f.value, env)] + args
+                    return self.call(t.node, args, kw)
+                # symbolic mode: a repository function is folded when its arguments are concrete (table look-ups); otherwise it stays a symbol
+                try:
+                    args = [self.ev(a, env) for a in n.args]
+                    kw = {k.arg: self.ev(k.value, env) for k in n.keywords if k.arg}
+                    if all(not isinstance(x, (Sym, Opaque, Obj)) for x in list(args) + list(kw.values())) and getattr(t, "cls", None) is None:
+                        sub = Folder()
+                        return sub.call(t.node, args, kw)
+                except Refuse:
+                    pass
         if self.symbolic:
             args = [self.ev(a, env) for a in n.args if not isinstance(a, ast.Starred)]
             kw = {k.arg: self.ev(k.value, env) for k in n.keywords if k.arg}
@@ -834,11 +869,23 @@ class Folder:
             it = self.ev(st.iter, env)
             if not isinstance(it, (list, tuple, str)):
                 raise Refuse("for over non-literal")
+            broke = False
             for x in it:
                 self.assign(st.target, x, env)
-                self.block(st.body, env)
-            self.block(st.orelse, env)
+                try:
+                    self.block(st.body, env)
+                except _Break:
+                    broke = True
+                    break
+                except _Continue:
+                    continue
+            if not broke:
+                self.block(st.orelse, env)
             return
+        if isinstance(st, ast.Break):
+            raise _Break()
+        if isinstance(st, ast.Continue):
+            raise _Continue()
         raise Refuse(f"statement kind {type(st).__name__}")
 
     def assign(self, t, v, env):
